@@ -47,6 +47,8 @@ pub enum Command {
     ShowServerRole,
     SetPrimaryReads,
     ShowPrimaryReads,
+    /// A recognized command whose argument cannot be used; the value is the error for the client.
+    InvalidArgument,
 }
 
 #[derive(PartialEq, Debug)]
@@ -290,13 +292,25 @@ impl QueryRouter {
                 true => String::from("on"),
                 false => String::from("off"),
             },
+
+            // Never produced by the regex table above.
+            Command::InvalidArgument => String::new(),
         };
 
         match command {
             Command::SetShardingKey => {
-                // TODO: some error handling here
+                let sharding_key = match value.parse::<i64>() {
+                    Ok(sharding_key) => sharding_key,
+                    Err(_) => {
+                        return Some((
+                            Command::InvalidArgument,
+                            format!("sharding key {} is out of range for type bigint", value),
+                        ))
+                    }
+                };
+
                 value = self
-                    .set_sharding_key(value.parse::<i64>().unwrap())
+                    .set_sharding_key(sharding_key)
                     .unwrap()
                     .to_string();
             }
@@ -304,7 +318,9 @@ impl QueryRouter {
             Command::SetShard => {
                 self.active_shard = match value.to_ascii_uppercase().as_ref() {
                     "ANY" => Some(rand::random::<usize>() % self.pool_settings.shards),
-                    _ => Some(value.parse::<usize>().unwrap()),
+                    // A number too large for usize is not a configured shard either,
+                    // the caller answers it like any other out of range shard.
+                    _ => Some(value.parse::<usize>().unwrap_or(usize::MAX)),
                 };
             }
 
